@@ -301,6 +301,8 @@ fn tp_durations() -> Vec<u128> {
         p *= 10;
         v.extend([p - 1, p + 1, 3 * p]);
     }
+    // beyond 64 bits of picoseconds (213 days and more): a duration is a 128-bit figure
+    v.extend([(1u128 << 64) - 1, 1u128 << 64, (1u128 << 64) + (1 << 12), 3u128 << 63, 1u128 << 65, 40_000_000_000_000_000_000, 10u128.pow(21), 10u128.pow(24), 7 * 10u128.pow(27), 1u128 << 100, u128::MAX >> 1, u128::MAX]);
     v.sort_unstable();
     v.dedup();
     v
